@@ -199,6 +199,65 @@ def constants_history_pass(ctx):
                 break
 
 
+def parameter_names_pass(ctx):
+    """(a) the registered function's own parameter names: names of which one is another followed by hex digits ((x, x1), (R, R1),
+    (p, p0, q), (a, ab)), with operands whose blades make `<name><blade digits>` coincide (x.e12 / x1.e2); (b) float constants
+    far below 1 in sums of like terms (5e-13*a + 5e-13*a) evaluated on large coefficients: both routes return what the plain
+    function returns"""
+    from kingdon import MultiVector
+    rng = ctx.rng
+    namesets = [('x', 'x1'), ('R', 'R1'), ('p', 'p0', 'q'), ('a', 'ab'), ('v', 'v12', 'v1'), ('a', 'b')]
+    bodies2 = ['{0} * {1}', '{0} >> {1}', '({0} | {1}) + {0} * {1}', '{1} * {0} - ({0} ^ {1})']
+    bodies3 = ['{0} * {1} * {2}', '({0} >> {1}) + {2}', '{0} * {2} - {1} * {2}']
+    for sig in ([1, 1, 1], [0, 1, 1, 1]):
+        alg = make_algebra(sig)
+        names = list(alg.canon2bin)
+        for ns in namesets:
+            for body in (bodies2 if len(ns) == 2 else bodies3):
+                src = body.format(*ns)
+                glob = {}
+                exec(f'def named({", ".join(ns)}):\n    return {src}\n', glob)
+                f = glob['named']
+                # operands: the first has blades with two-digit names, the later ones blades whose names are one digit shorter
+                k0 = [alg.canon2bin[n] for n in names if len(n) == 3][:3]
+                k1 = [alg.canon2bin[n] for n in names if len(n) == 2][:3]
+                pats = [k0, k1, k1[::-1]][:len(ns)]
+                args = [MultiVector.fromkeysvalues(alg, tuple(p_), [Fraction(rng.randint(2, 9)) for _ in p_]) for p_ in pats]
+                direct = result_of(f, args)
+                if direct[0] != 'ok':
+                    continue
+                for rname, mk in (('registered', lambda: alg.register(f)), ('registered-symbolic', lambda: alg.register(symbolic=True)(f))):
+                    case = {'sig': sig, 'parameters': list(ns), 'src': src, 'keys': [list(p_) for p_ in pats], 'route': rname}
+                    ctx.case(case, tag='parameter-names')
+                    try:
+                        got = result_of(mk(), args)
+                    except Exception as e:
+                        got = ('raise', type(e).__name__)
+                    if got[0] != 'ok' or not close(got[1], direct[1]):
+                        ctx.violation('registered-differs', case, str(direct[1])[:250], str(got[1])[:250], key=f'{rname}:differs:parameter-names')
+        # (b)
+        tiny = ['5e-13 * a + 5e-13 * a', '4e-13 * a - 1e-13 * a', '2e-13 * (b * a) - 2e-13 * (a * b)', '1e-15 * a + 1e-15 * a + b', '3e-14 * (a | b) + 3e-14 * (b | a)']
+        for src in tiny:
+            f = make_func(src, 'tiny_fn', 2)
+            ka, kb = [1, 2, 4][: alg.d], [3, 5]
+            args = [MultiVector.fromkeysvalues(alg, tuple(ka), [float(rng.randint(1, 9)) * 1e12 for _ in ka]),
+                    MultiVector.fromkeysvalues(alg, tuple(kb), [float(rng.randint(1, 9)) * 1e3 for _ in kb])]
+            direct = result_of(f, args)
+            if direct[0] != 'ok':
+                continue
+            for rname, mk in (('registered', lambda: alg.register(f)), ('registered-symbolic', lambda: alg.register(symbolic=True)(f))):
+                case = {'sig': sig, 'src': src, 'route': rname, 'coefficients': 'about 1e12 and 1e3'}
+                ctx.case(case, tag='tiny-constants')
+                try:
+                    got = result_of(mk(), args)
+                except Exception as e:
+                    got = ('raise', type(e).__name__)
+                ok = got[0] == 'ok' and set(k for k, v in got[1].items() if abs(v) > 1e-9) == set(k for k, v in direct[1].items() if abs(v) > 1e-9) and \
+                    all(abs(got[1].get(k, 0) - v) <= 1e-9 * max(1.0, abs(v)) for k, v in direct[1].items())
+                if not ok:
+                    ctx.violation('registered-differs', case, str(direct[1])[:250], str(got[1])[:250], key=f'{rname}:differs:tiny-constants')
+
+
 def construct_class(src):
     """which construct of the surface is involved (for telling findings apart)"""
     import re
@@ -312,5 +371,6 @@ def run(ctx):
                     ctx.violation('registered-type', {**case, 'route': rname}, 'a multivector', got[1], key=f'{rname}:type')
     same_name_pass(ctx)
     constants_history_pass(ctx)
+    parameter_names_pass(ctx)
     ctx.assumptions = ['lambdas cannot be registered (their __name__ is not an identifier): generated functions are named',
                        'the symbolic route goes through sympy simplification and is exercised on small expressions only']
